@@ -103,7 +103,7 @@ def run_batch(ctx, name, cases, fn, keyf):
 
 def run(ctx):
     ctx.extra["rule"] = ("every history of N measurement cycles (N<=5 quick, <=7 thorough) with any subset of forward/backward measurements missing (all 4^N patterns), "
-                         "regular timing and seeded jitter (multiples of 0.25 s, up to +-2 s), verify_timedeltas on and off; spatial: seeded grids/cable lengths in multiples of 1/8. "
+                         "regular timing and seeded jitter (multiples of 0.25 s, up to +-2 s), verify_timedeltas on and off; complete histories with one planted offset outlier of 0.25-3 s at every position;  spatial: seeded grids/cable lengths in multiples of 1/8. "
                          "distinct = distinct (fw, bw, verify) histories; all non-trivial")
     ctx.trusted += ["harness vlib/props/c15.py (index recovery from tagged st values)", "xarray/pandas datetime handling, dict/sorted semantics are modelled (Model/Merge.events)"]
     ctx.assumptions += ["time stamps of the two channels mutually distinct (theorem hypothesis; generator guarantees it)", "no exact ties in nearest-neighbour reindexing"]
@@ -123,6 +123,21 @@ def run(ctx):
                         continue
                     seen.add(key)
                     cases.append({"family": "times", "fw": fw, "bw": bw, "verify": verify})
+    # complete, strictly alternating histories with ONE pair whose forward->backward offset is larger than that of its agreeing
+    # neighbours by 0.25 .. 3 s (sub-second resolution: the 1.5 s threshold must be applied to the offsets themselves)
+    nplanted = 0
+    for N in ((4, 5) if ctx.quick else (3, 4, 5, 6, 7)):
+        for base in (10000, 10250, 10500, 10700):
+            for delta in range(250, 3001, 250 if ctx.quick else 125):
+                for pos in range(N):
+                    fw = [20000 * k for k in range(N)]
+                    bw = [20000 * k + base + (delta if k == pos else 0) for k in range(N)]
+                    key = (tuple(fw), tuple(bw), True)
+                    if key not in seen:
+                        seen.add(key)
+                        cases.append({"family": "times", "fw": fw, "bw": bw, "verify": True, "planted_outlier_ms": delta})
+                        nplanted += 1
+    ctx.count("planted-outlier histories", nplanted)
     ctx.extra["exhaustive"] = True
     ctx.count("histories", len(cases))
     run_batch(ctx, "times", cases, times_case, classify)
